@@ -201,6 +201,17 @@ def const_returns(fn):
                 st[s.targets[0].id] = s.value.value
             elif isinstance(s, ast.Return):
                 def ret_values(e):
+                    if isinstance(e, ast.Subscript) and not isinstance(e.slice, ast.Slice):
+                        d = e.value
+                        if isinstance(d, ast.Name):
+                            cands = [a.value for a in walk_own(fn) if isinstance(a, ast.Assign) and len(a.targets) == 1
+                                     and is_name(a.targets[0], d.id)]
+                            d = cands[0] if len(cands) == 1 else d
+                        if isinstance(d, ast.Dict) and d.keys and all(isinstance(k, ast.Constant) for k in d.keys):
+                            out_ = set()
+                            for v in d.values:
+                                out_ |= ret_values(v)
+                            return out_
                     if isinstance(e, ast.IfExp):
                         t = ev(e.test, st)
                         if t is top:
@@ -616,3 +627,71 @@ def affine_in_grade(expr, is_grade):
             return None
         return None
     return go(e)
+
+
+def kwarg(fi, call, name, pos=None):
+    """Value passed for parameter `name`: keyword, positional (index pos), or through `**d` where d is a local bound once to
+    a dict literal / dict(k=v) that has the key.  Returns (value or None, certain) -- certain is False when an unresolved
+    `**mapping` or `*args` could still carry it."""
+    for kw in call.keywords:
+        if kw.arg == name:
+            return kw.value, True
+    if pos is not None and len(call.args) > pos and not any(isinstance(a, ast.Starred) for a in call.args[:pos + 1]):
+        return call.args[pos], True
+    certain = not any(isinstance(a, ast.Starred) for a in call.args)
+    for kw in call.keywords:
+        if kw.arg is None:
+            d = value_of(fi, kw.value) if isinstance(kw.value, ast.Name) else kw.value
+            if isinstance(d, ast.Dict) and all(isinstance(k, ast.Constant) for k in d.keys if k is not None) and None not in d.keys:
+                for k, v in zip(d.keys, d.values):
+                    if k.value == name:
+                        return v, True
+            elif isinstance(d, ast.Call) and isinstance(d.func, ast.Name) and d.func.id == 'dict' and not d.args:
+                for k2 in d.keywords:
+                    if k2.arg == name:
+                        return k2.value, True
+                if any(k2.arg is None for k2 in d.keywords):
+                    certain = False
+            else:
+                certain = False
+    return None, certain
+
+
+def bind_call(callee_params, call):
+    """{parameter name: argument} for a call of a function whose positional parameters (without self) are callee_params;
+    None when *args / **kwargs make the binding unknown."""
+    if any(isinstance(a, ast.Starred) for a in call.args) or any(k.arg is None for k in call.keywords):
+        return None
+    out = {}
+    for pname, a in zip(callee_params, call.args):
+        out[pname] = a
+    for k in call.keywords:
+        out[k.arg] = k.value
+    return out
+
+
+def split_conditional_returns(paths):
+    """`return a if c else b` -> two paths (guards + c -> a, guards + not c -> b), recursively."""
+    out = []
+    work = list(paths)
+    while work:
+        p = work.pop(0)
+        if p.leaf.kind == 'ret' and isinstance(p.leaf.expr, ast.IfExp):
+            t = nf.canon(p.leaf.expr.test)
+            work.insert(0, nf.Path(p.guards + nf.conjuncts(nf.negate(t)) if not isinstance(nf.negate(t), ast.BoolOp) or isinstance(nf.negate(t).op, ast.And)
+                                   else p.guards + [nf.negate(t)], nf.Leaf('ret', p.leaf.expr.orelse, p.leaf.stmt, p.leaf.env), p.effects))
+            work.insert(0, nf.Path(p.guards + [t], nf.Leaf('ret', p.leaf.expr.body, p.leaf.stmt, p.leaf.env), p.effects))
+        else:
+            out.append(p)
+    return out
+
+
+def dict_choice(fi, e):
+    """`{True: a, False: b}[c]` (the dict possibly through a single-definition local) -> IfExp(c, a, b); else e."""
+    if isinstance(e, ast.Subscript) and not isinstance(e.slice, ast.Slice):
+        d = deref(fi, e.value) if isinstance(e.value, ast.Name) else e.value
+        if isinstance(d, ast.Dict) and len(d.keys) == 2 and all(isinstance(k, ast.Constant) and isinstance(k.value, bool) for k in d.keys):
+            m = {k.value: v for k, v in zip(d.keys, d.values)}
+            if set(m) == {True, False}:
+                return ast.IfExp(test=e.slice, body=m[True], orelse=m[False])
+    return e
